@@ -393,3 +393,21 @@ package schema
 //@ func (String).Len
 //@   nopanic
 //@   ensures result == typed(str_lenptr(self), *Length) && result != nil && len(result.Lbs) >= 1
+
+// The remaining RangeBoundarySlicer operations (C13): Contiguous holds for adjacent whole numbers only (never for
+// decimal64); Create/Append build a collection of the same kind.
+//@ define isDrb(s) = is(s, DrbSlice)
+//@ define sameKind(a, b) = smt("Bool", "(= (i_tag %s) (i_tag %s))", a, b)
+//@ define ubint(v) = smt("Int", "(ub$Int (i_box %s))", v)
+//@ func (RangeBoundarySlicer).Contiguous
+//@   params lower higher
+//@   ensures result == (!isDrb(self) && ubint(lower) + 1 == ubint(higher))
+//@ func (RangeBoundarySlicer).Create
+//@   params entries capacity
+//@   ensures result != nil && sameKind(result, self) && rb_len(result) == entries
+//@ func (RangeBoundarySlicer).Parse
+//@   params start base bitSize
+//@ func (RangeBoundarySlicer).Append
+//@   params start end
+//@   ensures result != nil && sameKind(result, self) && rb_len(result) == rb_len(self) + 1 && rb_start(result, rb_len(self)) == start && rb_end(result, rb_len(self)) == end
+//@   ensures forall(k, 0, rb_len(self), rb_start(result, k) == rb_start(self, k) && rb_end(result, k) == rb_end(self, k))
